@@ -200,6 +200,52 @@ def run(ctx):
     stream_loops(ctx)
     lexer_slices(ctx)
     quoted_symbols(ctx, c)
+    let_shadowing(ctx, c)
+
+
+def let_shadowing(ctx, c):
+    """R14.10: "let-bound sub-terms are read as exactly the values they denote": inside `(let ((x v)) body)` the name x means v even when a
+    declared symbol is called x too, i.e. the table that push_let writes is consulted before any other"""
+    ctx.rule("R14.10", "NestedSymbolTable::get consults the table written by push_let first and falls back to the declared symbols only when the name is not let-bound")
+    NST = Pm + "NestedSymbolTable::"
+    g, pl = ctx.fn_opt("patronus", NST + "get"), ctx.fn_opt("patronus", NST + "push_let")
+    if g is None or pl is None:
+        ctx.inst("R14.10", "lookup-order", False, None, "UNRECOGNISED: NestedSymbolTable::get / push_let not found", nontrivial=False)
+        return
+    written = set()
+    for n in walk(pl["body"]):
+        if n.get("k") == "mcall" and n["name"] in ("insert", "push", "entry"):
+            fp = field_path(n["recv"])
+            if fp and fp[0] == "self" and len(fp[2]) == 1:
+                written.add(fp[2][0])
+    # the order in which `get` consults the fields of self: receivers of look-ups (`get`, `contains_key`, indexing) in evaluation order;
+    # a look-up inside `or_else(|| ..)` / `unwrap_or_else` / the None arm of a match runs after the one it hangs on
+    order = []
+    gix = Index(g["body"])
+    for n in gix.nodes:
+        if n.get("k") == "mcall" and n["name"] in ("get", "get_mut", "contains_key") and len(n.get("args", [])) == 1:
+            fp = field_path(n["recv"])
+            if fp and fp[0] == "self" and len(fp[2]) == 1:
+                order.append((gix.pre[id(n)] if hasattr(gix, "pre") else 0, fp[2][0], n))
+    # evaluation order: a look-up that is (inside) an argument of a method called on another look-up comes second
+    def runs_after(a, b):
+        """look-up a is evaluated only after look-up b answered (a sits in an argument / closure of a call whose receiver chain contains b)"""
+        for anc in gix.ancestors(a):
+            if anc.get("k") == "mcall" and contains(anc["recv"], b) and not contains(anc["recv"], a):
+                return True
+            if anc.get("k") == "match" and contains(anc["scrut"], b) and not contains(anc["scrut"], a):
+                return True
+            if anc.get("k") == "if" and contains(anc["cond"], b) and not contains(anc["cond"], a):
+                return True
+        return False
+    lets_first = None
+    let_lookups = [n for _, fld, n in order if fld in written]
+    other_lookups = [n for _, fld, n in order if fld not in written]
+    if let_lookups and other_lookups:
+        lets_first = all(runs_after(o, l) for o in other_lookups for l in let_lookups[:1]) and not any(runs_after(l, o) for l in let_lookups for o in other_lookups)
+    ctx.inst("R14.10", "lookup-order", lets_first is True, g["span"],
+             "NestedSymbolTable::get looks a name up in %s before %s (push_let writes %s): a let-bound name that is also a declared symbol is read as the declared symbol, not as the value the let gives it" % (
+                 [fld for _, fld, _ in order][:1], sorted(written), sorted(written)), sample={"consulted": [fld for _, fld, _ in order], "let table": sorted(written)})
 
 
 def quoted_symbols(ctx, c):
